@@ -193,25 +193,18 @@ func runC03(c *Ctx) {
 				lenRecv = u.X
 			}
 			c.check(lenRecv == popped, rule3, "matchSnowflake tests the emptiness of the heap it pops", p.instrPos(lenCall), "", "Len() is evaluated on a different heap than the one popped")
-			nonEmpty := condEdges(match, true, func(a Atom) bool {
-				// 0 < Len()
-				if a.Op == token.LSS {
-					k, ok := constInt(a.X)
-					return ok && k == 0 && a.Y == ssa.Value(lenCall)
-				}
-				return false
-			})
+			isLen := func(v ssa.Value) bool { return v == ssa.Value(lenCall) }
+			isZero := func(v ssa.Value) bool { k, ok := constInt(v); return ok && k == 0 }
+			isOne := func(v ssa.Value) bool { k, ok := constInt(v); return ok && k == 1 }
+			nonEmpty := append(cmpEdges(match, ">", isLen, isZero), cmpEdges(match, ">=", isLen, isOne)...)
+			nonEmpty = append(nonEmpty, eqEdges(match, false, isLen, isZero)...)
+			emptyEdges := append(cmpEdges(match, "<=", isLen, isZero), cmpEdges(match, "<", isLen, isOne)...)
+			emptyEdges = append(emptyEdges, eqEdges(match, true, isLen, isZero)...)
 			bad := false
 			for _, r := range returnsOf(match) {
 				if isNilConst(r.Results[0]) {
-					// nil return must be unreachable through the non-empty edge ... i.e. only via the empty edge
-					empty := condEdges(match, false, func(a Atom) bool {
-						if a.Op == token.LSS {
-							k, ok := constInt(a.X)
-							return ok && k == 0 && a.Y == ssa.Value(lenCall)
-						}
-						return false
-					})
+					// nil return only via an edge on which the heap was found empty
+					empty := emptyEdges
 					if len(empty) == 0 || reachableWithout(match, r, empty) != nil {
 						bad = true
 						c.viol(rule3, "matchSnowflake returns nil only when the selected heap is empty", p.instrPos(r), "a nil (no proxy) result is reachable although the eligible pool was not found empty")
